@@ -112,6 +112,7 @@ class Run:
         self.jobs = {}           # (id, submit_num) -> job dict (policy bookkeeping)
         self.stop_reason = None
         self.schd = None
+        self.fails = {}
 
     # -- set up ------------------------------------------------------------
     async def start(self, restart=False):
@@ -277,6 +278,11 @@ class Run:
         """Outcome of one job, decided when it is launched."""
         oc = (pol.get('outcomes') or {}).get(name) or {}
         plan = []
+        fails = self.fails.setdefault((point, name), [0, 0])
+        # with retries configured a job may fail while a retry remains ('complete' runs keep the final try good)
+        if fails[1] < oc.get('sub_retries', 0) and rng.random() < oc.get('p_retry_fail', 0.0):
+            fails[1] += 1
+            return [('subres', False)]
         if rng.random() < oc.get('p_submit_fail', 0.0):
             return [('subres', False)]
         plan.append(('subres', True))
@@ -284,6 +290,10 @@ class Run:
         for out in oc.get('custom', []):
             if rng.random() < oc.get('p_custom', 1.0):
                 plan.append(('msg', out))
+        if fails[0] < oc.get('exec_retries', 0) and rng.random() < oc.get('p_retry_fail', 0.0):
+            fails[0] += 1
+            plan.append(('msg', 'failed'))
+            return plan
         plan.append(('msg', 'failed' if rng.random() < oc.get('p_fail', 0.0) else 'succeeded'))
         return plan
 
@@ -398,6 +408,8 @@ def extract_graph(schd, case):
             'first_parentless': None if fp is None else int(fp),
             'completion': comp,
             'outputs': outs if inst else [],
+            'exec_retries': len(tdef.rtconfig['execution retry delays'] or []),
+            'sub_retries': len(tdef.rtconfig['submission retry delays'] or []),
             'has_abs': bool(tdef.has_abs_triggers),
             'sequential': bool(tdef.sequential),
         }
